@@ -120,6 +120,35 @@ def _edge_theory(H, tree, c0):
     return EDGE, DONE, facts, first, last
 
 
+def walk_step(H, tree, c0, s, quantified=False):
+    from pyvc.sym import qforall
+    from contracts.common import C_idx
+    from contracts.c19 import right_of
+    C = H.ochildren(tree)
+    EDGE, DONE, facts, first, last = _edge_theory(H, tree, c0)
+    k = C_idx(H, VRef(s)).t
+    R = right_of(H, VRef(s)).t
+    step_e = z3.If(z3.Or(DONE(k), first(k) < EDGE(k), first(k) > EDGE(k) + 1), EDGE(k), last(k))
+    step_d = z3.Or(DONE(k), z3.And(first(k) >= EDGE(k), first(k) > EDGE(k) + 1))
+    kn = z3.If(R == 0, C.n, C_idx(H, VRef(R)).t)
+    body = z3.Implies(z3.And(tobool(WF(H, VRef(s))), H.parent_t(s) == tree.t, c0 < k, k < C.n, C.get(k).t == s),
+                      z3.And(kn == k + 1, EDGE(kn) == step_e, DONE(kn) == step_d,
+                             z3.Implies(R != 0, z3.And(tobool(WF(H, VRef(R))), H.parent_t(R) == tree.t, C.get(kn).t == R))))
+    if quantified:
+        return qforall([s], body, [C_idx(H, VRef(s)).t])
+    return body
+
+
+def lemma_walk_step(reg, repo):
+    from contracts.common import children_facts
+    H = Heap.fresh("V")
+    tree, s = VRef(z3.Int("v_tree")), z3.Int("v_s")
+    c0 = z3.Int("v_c0")
+    EDGE, DONE, facts, first, last = _edge_theory(H, tree, c0)
+    hyp = facts + [tree.t != 0, tobool(WF(H, tree)), tobool(wf_theory(H)), tobool(children_facts(H, tree))] + H.typing()
+    return [("recurrence_at_the_position_of_a_root_child", hyp, walk_step(H, tree, c0, s))]
+
+
 def lemma_right_boundary(reg, repo):
     import ast
     from pyvc.core import Contract, Exec, State
@@ -174,6 +203,11 @@ def lemma_right_boundary(reg, repo):
         H.num(Tx.get(0)).t <= H.num(Tx.get(bi)).t, H.num(Tx.get(bi)).t <= H.num(Tx.get(Tx.n - 1)).t)),
         [[tobool(WF(H, VRef(x))), Tx.get(bi).t]]))
 
+    # the recurrence, instantiated at the position of a root child s, together with where its right neighbour sits
+    # (consequences of the definitions above and of the tree theory: lemma walk_step proves them for a generic s)
+    sq = z3.Int(fresh_name("sq"))
+    st.assume(walk_step(H, tree, c0, sq, quantified=True))
+
     def inv(S):
         focus, sib, t_r = S.focus, S.sibling, toint(S.t_r)
         sib_t = z3.IntVal(0) if (sib is VNone or sib is None) else sib.t
@@ -206,10 +240,8 @@ def lemma_right_boundary(reg, repo):
 
 
 lemma_right_boundary.target = "trees.transform.root_attach"
-# WORK IN PROGRESS, NOT REGISTERED (so not part of the check and not counted anywhere): 18 of its 21 obligations are
-# discharged; the two "absorb / skip" invariant steps and the break exit stay `unknown` in all back ends (the step from
-# EDGE(k) to EDGE(k + 1) at k = C_idx(sibling) is not found by the solvers).  The right boundary stays bounded-only.
-WORK_IN_PROGRESS = {"right_boundary": lemma_right_boundary}
+LEMMAS["right_boundary"] = lemma_right_boundary
+LEMMAS["walk_step"] = lemma_walk_step
 
 
 def lemma_edge_frozen(reg, repo):
@@ -226,7 +258,7 @@ def lemma_edge_frozen(reg, repo):
             ("step", hyp + [DONE(m), EDGE(m) == EDGE(k)], z3.And(DONE(m + 1), EDGE(m + 1) == EDGE(k)))]
 
 
-WORK_IN_PROGRESS["edge_frozen"] = lemma_edge_frozen
+LEMMAS["edge_frozen"] = lemma_edge_frozen
 
 
 def lemma_first_last_bounds(reg, repo):
